@@ -3,12 +3,12 @@ use crate::{
     error::{WriterError, WriterResult},
     model::{
         Namespace,
-        field::as_field_name,
+        field::{as_field_name, as_type_name},
         helpers::{write_check_restrictions_footer, write_check_restrictions_header},
     },
     reader::WriteXml,
 };
-use inflector::cases::{pascalcase::to_pascal_case, snakecase::to_snake_case};
+use inflector::cases::snakecase::to_snake_case;
 use reqwest::Url;
 use std::{io, rc::Rc};
 
@@ -21,7 +21,7 @@ where
             writeln!(writer, "\n// operation {operation_name:?}\n")?;
 
             // input
-            let operation_name = to_pascal_case(operation_name);
+            let operation_name = as_type_name(operation_name);
             let envelope_name = format!("{operation_name}InputEnvelope");
             let soap_operation = &operation.input;
             write_soap_operation(writer, &envelope_name, soap_operation, &self.target_namespaces)?;
@@ -52,7 +52,7 @@ where
     W: io::Write,
 {
     // generate an async fn for the operation
-    let rust_fn_name = to_snake_case(operation_name);
+    let rust_fn_name = as_field_name(operation_name);
     let request_name = format!("{operation_name}InputEnvelope");
     let response_name = operation
         .output
@@ -112,7 +112,7 @@ where
             // on the wire a header is the element its part refers to, not the part
             let xml_name = header.rust_type.xml_name().ok_or(WriterError::InvalidReference)?;
             // generated structs are named in PascalCase
-            let rust_type = to_pascal_case(xml_name);
+            let rust_type = as_type_name(xml_name);
 
             if let Some(namespace) = header.in_namespace.as_ref() {
                 let abbreviation = namespace.abbreviation.as_str();
@@ -150,7 +150,7 @@ where
     let body = soap_operation.body.rust_type.xml_name().ok_or(WriterError::InvalidReference)?;
     let body_field_name = as_field_name(&to_snake_case(body));
     // generated structs are named in PascalCase
-    let body_type = to_pascal_case(body);
+    let body_type = as_type_name(body);
     let xml_name = soap_operation.body.rust_type.xml_name().ok_or(WriterError::InvalidReference)?;
 
     writeln!(writer, "#[derive(Debug, Default, YaSerialize, YaDeserialize)]")?;
